@@ -114,9 +114,8 @@ def _has_invalid_pin_cite(
     """Return True if id_cite has a pin cite that can't be correct for the
     given full_cite."""
     # if full cite has a known missing page, this pin cite can't be correct
-    if (
-        type(full_cite) is FullCaseCitation
-        and full_cite.groups.get("page") is None
+    if full_cite.groups.get("page") is None and (
+        type(full_cite) is FullCaseCitation or "page" in full_cite.groups
     ):
         return True
 
